@@ -112,6 +112,10 @@ fn main() {
             Some(p) => coord::detlog_main(p, tier_of(&a[3]), a[4].parse().unwrap_or(0), a[5].parse().unwrap_or(0), a[6].parse().unwrap_or(1), a[7].parse().unwrap_or(0)),
             None => usage(),
         },
+        Some("inproc") if a.len() >= 7 => match Prop::parse(&a[2]) {
+            Some(p) => coord::inproc_main(p, tier_of(&a[3]), a[4].parse().unwrap_or(0), a[5].parse().unwrap_or(0), a[6].parse().unwrap_or(1)),
+            None => usage(),
+        },
         Some("replay") if a.len() >= 3 => coord::replay_main(&a[2]),
         Some("selftest") => selftest(a.get(2).map(|s| s == "deep").unwrap_or(false)),
         _ => usage(),
